@@ -9,8 +9,14 @@ enumerations, several classes per namespace, nested namespaces.
 
 Within one class the operations are kept distinct in (name, number of parameters): two operations agreeing in
 cleaned return type, name and parameter count share a USER tag - that is the recorded finding
-`uml-overload-tag-collision`, exercised by its own witness probe.  Every class is in a package (a class in no
-package is the recorded finding `uml-element-outside-package`)."""
+`uml-overload-tag-collision`, exercised by its own witness probe; the same holds for the operations a class takes
+over from the interfaces it realises.
+
+Relationships (`relations=True`): realisation of interfaces (also interfaces extending interfaces), generalisation
+between concrete classes, associations / aggregations / compositions with names, multiplicities, visibilities,
+getters and setters - acyclic where C++ needs it.  `wellformed=True` keeps to models a C++ compiler can accept
+(no static const operation, no modelled constructor next to read-only attributes, no static read-only attribute,
+default-constructible bases and composed parts): the stream C19's compile oracle runs on."""
 import contextlib
 import copy
 import sys
@@ -18,7 +24,7 @@ import sys
 PRIM = ["int", "double", "bool", "float", "char", "unsigned int"]
 WORDS = ["Track", "Disc", "Player", "Door", "Timer", "Layer", "Packet", "Buffer", "Item", "Node", "Frame", "Port"]
 VERBS = ["Play", "Stop", "Open", "Close", "Send", "Recv", "Reset", "Get", "Set", "Find", "Add", "Remove"]
-NSS = ["App", "App::Core", "Proto", "X::Y::Z"]
+NSS = ["App", "App::Core", "Proto", "X::Y::Z", "App", "Proto", "", "Platform::Services::Messaging"]
 
 
 def _ident(r, pool, taken, prefix=""):
@@ -32,7 +38,7 @@ def _ident(r, pool, taken, prefix=""):
     return w
 
 
-def rand_spec(r):
+def rand_spec(r, wellformed=False, relations=None, focus=None):
     taken = set()
     classes = []
     for _ in range(r.randint(1, 4)):
@@ -44,30 +50,168 @@ def rand_spec(r):
         else:
             ataken = set()
             for _ in range(r.randint(0, 4)):
+                static = r.random() < 0.15
                 c["attrs"].append(dict(name="m_" + _ident(r, [w.lower() for w in WORDS], ataken), type=r.choice(PRIM),
-                                       const=kind == "class" and r.random() < 0.4, static=r.random() < 0.15,
+                                       const=kind == "class" and r.random() < 0.4 and not (wellformed and static), static=static,
                                        vis=r.choice(["private", "private", "protected", "public"]),
                                        getter=r.random() < 0.4, setter=r.random() < 0.3, doc=r.choice(["", "doc"])))
             sigs = set()
             nops = r.randint(0, 5) if kind != "struct" else r.randint(0, 1)
             nconst = sum(1 for a in c["attrs"] if a["const"] and not a["static"])
-            for _ in range(nops):
-                ctor = kind == "class" and r.random() < 0.35
+            force_ctor = kind == "class" and nconst and nops and not wellformed and r.random() < 0.4
+            for k_ in range(nops):
+                ctor = (kind == "class" and r.random() < 0.35 and not (wellformed and nconst)) or (force_ctor and k_ == 0)
                 oname = name if ctor else r.choice(VERBS) + r.choice(["", "", "All", "Now"])
                 # a modelled constructor often takes one value per read-only attribute - as many parameters as the
                 # initialising constructor the generator writes on its own
-                n = nconst if ctor and r.random() < 0.5 else r.randint(0, 3)
+                n = nconst if ctor and (r.random() < 0.5 or (force_ctor and k_ == 0)) else r.randint(0, 3)
                 if (oname, n) in sigs:
                     continue
                 sigs.add((oname, n))
+                static = not ctor and kind == "class" and r.random() < 0.15
                 c["ops"].append(dict(name=oname, ret="void" if ctor else r.choice(PRIM + ["void", "void"]),
                                      params=[dict(name="p%d" % i, type=r.choice(PRIM), direction=r.choice(["in", "inout", "out"])) for i in range(n)],
-                                     virtual=kind == "interface" or (not ctor and r.random() < 0.2),
-                                     static=not ctor and kind == "class" and r.random() < 0.15,
-                                     const=not ctor and r.random() < 0.2,
+                                     virtual=kind == "interface" or (not ctor and r.random() < 0.2 and not (wellformed and static)),
+                                     static=static,
+                                     const=not ctor and r.random() < 0.2 and not (wellformed and static),
                                      vis=r.choice(["public", "public", "protected", "private"]), doc=r.choice(["", "does it"])))
         classes.append(c)
-    return dict(diagram="Synth" + r.choice(["", "A", "B"]), classes=classes)
+    if focus == "packed":
+        # a packed struct whose members have long declarations: a long member name, a member typed by an enumeration
+        # or a plain struct of a deeply nested package
+        ns = r.choice(["Platform::Services::Messaging", "App::Core", "X::Y::Z"])
+        en = _ident(r, WORDS, taken, "E")
+        classes.append(dict(name=en, ns=ns, kind="enum", doc="", attrs=[], ops=[], literals=[en.upper() + "_A", en.upper() + "_B"]))
+        sn = _ident(r, WORDS, taken, "s")
+        attrs = []
+        for k_ in range(r.randint(1, 4)):
+            long_ = r.random() < 0.6
+            a = dict(name="m_%s%d" % (r.choice(WORDS).lower(), k_) + ("_" + r.choice(["of_the_previous_frame", "as_received_from_peer", "pending_confirmation"]) if long_ else ""),
+                     type=r.choice(PRIM), const=False, static=False, vis="public", getter=False, setter=False, doc=r.choice(["", "doc"]))
+            if r.random() < 0.5:
+                a["tref"], a["mod"] = len(classes) - 1, ""
+            attrs.append(a)
+        classes.append(dict(name=sn, ns=r.choice([ns, "App", ""]), kind="struct", doc="", attrs=attrs, ops=[], literals=[], packed=True))
+    spec = dict(diagram="Synth" + r.choice(["", "A", "B"]), classes=classes, inherits=[], assocs=[])
+    if relations if relations is not None else r.random() < 0.5:
+        add_relations(r, spec, wellformed)
+        add_typed_members(r, spec)
+    return spec
+
+
+def _complete_edges(spec):
+    """(a, b): the header of a needs the complete type b (base class, member by value, composed part)"""
+    e = {(h["to"], h["frm"]) for h in spec["inherits"]}
+    e |= {(a["frm"], a["to"]) for a in spec["assocs"] if a["type"] == "Composition"}
+    for i, c in enumerate(spec["classes"]):
+        e |= {(i, a["tref"]) for a in c["attrs"] if "tref" in a and a.get("mod") == ""}
+    return e
+
+
+def _reaches(edges, a, b):
+    seen, todo = set(), [a]
+    while todo:
+        x = todo.pop()
+        if x == b:
+            return True
+        if x in seen:
+            continue
+        seen.add(x)
+        todo += [y for (w, y) in edges if w == x]
+    return False
+
+
+def add_typed_members(r, spec):
+    """attributes, parameters and return values typed by other elements of the diagram (by value: enumerations and
+    default-constructible classes / structs declared earlier; by pointer or reference: any class), packed structs,
+    a few long member names"""
+    cs = spec["classes"]
+    n = len(cs)
+    for i, c in enumerate(cs):
+        if c["kind"] not in ("class", "struct", "interface"):
+            continue
+        by_value = [j for j in range(n) if j != i and (cs[j]["kind"] == "enum" or (j < i and _default_constructible(cs[j])))]
+        by_ptr = [j for j in range(n) if j != i and cs[j]["kind"] in ("class", "struct", "interface")]
+        if c["kind"] == "struct" and "packed" not in c:
+            c["packed"] = r.random() < 0.4
+        for a in c["attrs"]:
+            if a["const"] or a["static"] or r.random() >= 0.35:
+                continue
+            j = r.choice(by_value) if by_value else None
+            if j is not None and r.random() < 0.6 and not _reaches(_complete_edges(spec), j, i):
+                a["tref"], a["mod"] = j, ""
+            elif by_ptr and not c.get("packed"):
+                a["tref"], a["mod"] = r.choice(by_ptr), "*"
+            if r.random() < 0.3:
+                a["name"] = a["name"] + "_" + r.choice(["of_the_previous_frame", "as_received_from_peer", "pending_confirmation"])
+        for o in c["ops"]:
+            for p_ in o["params"]:
+                if r.random() < 0.2 and (by_ptr or by_value):
+                    j = r.choice(by_ptr + [k for k in by_value if cs[k]["kind"] == "enum"])
+                    p_["tref"], p_["mod"] = j, ("" if cs[j]["kind"] == "enum" else r.choice(["*", "&"]))
+            if o["name"] != c["name"] and by_ptr and r.random() < 0.12:
+                o["ret_tref"], o["ret_mod"] = r.choice(by_ptr), "*"
+
+
+def _sigs(c):
+    return {(o["name"], len(o["params"])) for o in c["ops"]}
+
+
+def inherited_sigs(spec, i):
+    """(name, number of parameters) of the operations class i takes over from the interfaces it realises, transitively
+    and once per path (an interface reached twice - a redundant realisation - counts twice: the generator overrides its
+    operations once per path, and C++ would see an ambiguous base)"""
+    out = []
+    for h in spec["inherits"]:
+        if h["to"] == i and spec["classes"][h["frm"]]["kind"] == "interface":
+            out += sorted(_sigs(spec["classes"][h["frm"]])) + inherited_sigs(spec, h["frm"])
+    return out
+
+
+def _default_constructible(c):
+    return c["kind"] in ("class", "struct") and not any(a["const"] for a in c["attrs"]) and not any(o["name"] == c["name"] for o in c["ops"])
+
+
+def add_relations(r, spec, wellformed):
+    cs = spec["classes"]
+    n = len(cs)
+
+    def try_inherit(b, d, realization):
+        spec["inherits"].append(dict(frm=b, to=d, realization=realization))
+        # every class below d must still have pairwise distinct operations (own + taken over)
+        for k in range(n):
+            own = sorted(_sigs(cs[k]))
+            allsigs = own + inherited_sigs(spec, k)
+            if len(allsigs) != len(set(allsigs)):
+                spec["inherits"].pop()
+                return False
+        return True
+
+    for d in range(n):
+        for b in range(n):
+            if b == d:
+                continue
+            kb, kd = cs[b]["kind"], cs[d]["kind"]
+            if kb == "interface" and kd == "class" and r.random() < 0.5:
+                try_inherit(b, d, True)
+            elif kb == "interface" and kd == "interface" and b < d and r.random() < 0.35:
+                try_inherit(b, d, r.random() < 0.5)
+            elif kb == "class" and kd == "class" and b < d and r.random() < 0.3 and (not wellformed or _default_constructible(cs[b])):
+                try_inherit(b, d, False)
+    holders = [i for i in range(n) if cs[i]["kind"] == "class"]
+    targets = [i for i in range(n) if cs[i]["kind"] in ("class", "interface", "struct")]
+    for k in range(r.randint(0, 3) if holders and targets else 0):
+        a, b = r.choice(holders), r.choice(targets)
+        ty = r.choice(["Association", "Aggregation", "Composition"])
+        if ty == "Composition" and (cs[b]["kind"] == "interface" or a == b or (wellformed and not (_default_constructible(cs[b]) and b < a))):
+            ty = "Aggregation"
+        if any(x["frm"] == a and x["to"] == b or x["frm"] == b and x["to"] == a for x in spec["assocs"]):
+            continue        # one relationship per pair: the member names derive from the type
+        mult = lambda: r.choice(["0..1", "1", "*", "0..*", "1..*", "0..1", "1"])
+        spec["assocs"].append(dict(frm=a, to=b, type=ty, name=r.choice(["", "", "m_link%d" % k]), doc=r.choice(["", "linked"]),
+                                   from_mult=("1" if ty == "Composition" else mult()), to_mult=(mult() if ty == "Association" else "0"),
+                                   from_vis=r.choice(["private", "private", "protected", "public"]), to_vis=r.choice(["private", "public"]),
+                                   from_getter=r.random() < 0.4, from_setter=r.random() < 0.3, to_getter=r.random() < 0.3, to_setter=r.random() < 0.2))
 
 
 def mutate_spec(r, spec):
@@ -94,6 +238,11 @@ def mutate_spec(r, spec):
         if all((o["name"], len(o["params"])) != (nm, n) for o in c["ops"]):
             c["ops"].append(dict(name=nm, ret="void", params=[dict(name="q%d" % i, type="int", direction="in") for i in range(n)],
                                  virtual=c["kind"] == "interface", static=False, const=False, vis="public", doc=""))
+            for k in range(len(s["classes"])):
+                allsigs = sorted(_sigs(s["classes"][k])) + inherited_sigs(s, k)
+                if len(allsigs) != len(set(allsigs)):
+                    c["ops"].pop()      # a realising class already has an operation of that name and arity
+                    break
         return s, "add-operation"
     if k == 3 and c["attrs"]:
         a = r.choice(c["attrs"])
@@ -107,10 +256,11 @@ def build(spec):
     """the ClassDiagram object umlgen works on"""
     V = sys.modules["kojen.vppclassdiagram"]
     diagram = V.ClassDiagram(spec["diagram"], "diagram0", [], None)
+    qual = lambda i: (spec["classes"][i]["ns"] + "::" if spec["classes"][i]["ns"] else "") + spec["classes"][i]["name"]
     for i, c in enumerate(spec["classes"]):
         k = V.Class.__new__(V.Class)
         k.parent_classDiagram = diagram
-        k.ID = "cls%d" % i
+        k.ID = "cls%03d" % i
         k.MODEL_TYPE = "Class"
         k.PARENT_ID = ""
         k.NAME = c["name"]
@@ -125,24 +275,64 @@ def build(spec):
         k.IS_ENUM = c["kind"] == "enum"
         k.ENUM_LITERALS = list(c["literals"])
         k.IS_STRUCT = c["kind"] == "struct"
-        k.IS_STRUCT_PACKED = False
+        k.IS_STRUCT_PACKED = bool(c.get("packed"))
         for a in c["attrs"]:
             at = V.ClassAttribute(None, None)
-            at.From(a["name"], a["type"], "", "", "", a["static"], a["const"], a["vis"], a["getter"], a["setter"], a["doc"])
+            if "tref" in a:
+                at.From(a["name"], qual(a["tref"]), "cls%03d" % a["tref"], a["mod"], "", a["static"], a["const"], a["vis"], a["getter"], a["setter"], a["doc"])
+            else:
+                at.From(a["name"], a["type"], "", "", "", a["static"], a["const"], a["vis"], a["getter"], a["setter"], a["doc"])
             k.ATTRIBUTES.append(at)
         for o in c["ops"]:
             op = V.ClassOperation({'name': o["name"], 'child_0': {}}, None)
             op.RETURN_TYPE = o["ret"]
+            if "ret_tref" in o:
+                op.RETURN_TYPE, op.RETURN_TYPE_MODIFIER = qual(o["ret_tref"]), o["ret_mod"]
             op.VISIBILITY = o["vis"]
             op.VIRTUAL = o["virtual"]
             op.IS_STATIC = o["static"]
             op.IS_CONST = o["const"]
             op.USER_COMMENTS = o["doc"]
             for p in o["params"]:
-                op.PARAMETERS.append({'const': "const" if p["direction"] == "in" else "", 'type': p["type"], 'name': p["name"], 'modifier': "",
+                op.PARAMETERS.append({'const': "const" if p["direction"] == "in" else "", 'type': qual(p["tref"]) if "tref" in p else p["type"],
+                                      'name': p["name"], 'modifier': p.get("mod", ""),
                                       'defaultvalue': "", 'multiplicity': "", 'direction': p["direction"]})
             k.OPERATIONS.append(op)
         diagram.classes[k.ID] = k
+    for j, h in enumerate(spec.get("inherits", [])):
+        inh = V.Inheritance.__new__(V.Inheritance)
+        inh.ID = "inh%03d" % j
+        inh.MODEL_TYPE = "Realization" if h["realization"] else "Generalization"
+        inh.PARENT_ID = ""
+        inh.NAME = ""
+        inh.BLOB_STRING = ""
+        inh.table_vppmodelelements = None
+        inh.dict_from_BLOB_STRING = {}
+        inh.IS_REALIZATION = h["realization"]
+        inh.CLASS_FROM, inh.CLASS_FROM_ID = spec["classes"][h["frm"]]["name"], "cls%03d" % h["frm"]
+        inh.CLASS_TO, inh.CLASS_TO_ID = spec["classes"][h["to"]]["name"], "cls%03d" % h["to"]
+        inh.PostProjectParseFix(diagram)
+        diagram.inheritence[inh.ID] = inh
+    for j, a in enumerate(spec.get("assocs", [])):
+        x = V.Association.__new__(V.Association)
+        x.ID = "asc%03d" % j
+        x.MODEL_TYPE = "Association"
+        x.PARENT_ID = ""
+        x.NAME = a["name"]
+        x.BLOB_STRING = ""
+        x.table_vppmodelelements = None
+        x.dict_from_BLOB_STRING = {}
+        x.TYPE = a["type"]
+        x.USER_COMMENTS = a["doc"]
+        x.CLASS_FROM, x.CLASS_FROM_ID = qual(a["frm"]), "cls%03d" % a["frm"]
+        x.CLASS_TO, x.CLASS_TO_ID = qual(a["to"]), "cls%03d" % a["to"]
+        x.CLASS_FROM_VISIBILITY, x.CLASS_TO_VISIBILITY = a["from_vis"], a["to_vis"]
+        x.CLASS_FROM_IS_STATIC = x.CLASS_TO_IS_STATIC = False
+        x.CLASS_FROM_IS_CONST = x.CLASS_TO_IS_CONST = False
+        x.CLASS_FROM_MULTIPLICITY, x.CLASS_TO_MULTIPLICITY = a["from_mult"], a["to_mult"]
+        x.CLASS_FROM_HAS_GETTER, x.CLASS_FROM_HAS_SETTER = a["from_getter"], a["from_setter"]
+        x.CLASS_TO_HAS_GETTER, x.CLASS_TO_HAS_SETTER = a["to_getter"], a["to_setter"]
+        diagram.associations[x.ID] = x
     return diagram
 
 
